@@ -721,7 +721,36 @@ func c19Patterns(w *core.Worker, i int) {
 	}
 }
 
+// c19NestedChange: a data-changing statement whose expressions call a function that runs a data-changing statement itself. Run once
+// per check in the real binary under a watchdog of ten seconds (the statement needs milliseconds), repeated with twenty.
+func c19NestedChange(w *core.Worker) {
+	core.WriteFiles(w.Work, map[string]string{"nd.csv": "a\n1\n2\n", "ndlog.csv": "x\n"})
+	clean := func() {
+		for _, n := range []string{".nd.csv.lock", ".nd.csv.temp", ".ndlog.csv.lock", ".ndlog.csv.temp"} {
+			_ = os.Remove(filepath.Join(w.Work, n))
+		}
+	}
+	defer clean()
+	for _, p := range []string{
+		"DECLARE f FUNCTION (@x) AS BEGIN INSERT INTO ndlog VALUES (@x); RETURN @x + 1; END; UPDATE nd SET a = f(a);",
+	} {
+		pr := core.RunProc(core.ProcOpts{Dir: w.Work, Args: csvqArgs("-q", p), Timeout: 10 * time.Second})
+		if pr.TimedOut {
+			clean() // (the run that was killed could not remove its control files)
+			pr = core.RunProc(core.ProcOpts{Dir: w.Work, Args: csvqArgs("-q", p), Timeout: 20 * time.Second})
+			if pr.TimedOut {
+				w.Violation("hang:data-changing-statement-called-from-a-data-changing-statement", fmt.Sprintf("%s: still running after 20 s", p), c19Replay{Kind: "program", Query: p, Detail: "watchdog, twice"})
+				continue
+			}
+		}
+		c19JudgeProc(w, pr, "program", p, nil)
+	}
+}
+
 func c19Case(w *core.Worker, i int) {
+	if i == 7 {
+		c19NestedChange(w)
+	}
 	if i%40 == 7 {
 		c19Patterns(w, i)
 		return
